@@ -303,5 +303,10 @@ func genC05(tier string, r *rng, emit func(string)) {
 			parts = append(parts, fints(sh)+"/"+fints(st))
 		}
 		emit(fmt.Sprintf("mult %s %s", strings.Join(parts, ";"), strings.Repeat("nl", size)+"dnlr"+strings.Repeat("nl", size/2+1)))
+		// direction switches: a reverse run, back to forward in the middle of it, reverse after exhaustion
+		if i%3 == 0 {
+			emit(fmt.Sprintf("mult %s %s", strings.Join(parts, ";"), "R"+strings.Repeat("nl", size)+"dnl"+"F"+strings.Repeat("nl", size)+"dnl"))
+			emit(fmt.Sprintf("mult %s %s", strings.Join(parts, ";"), "Rnlnl"+"F"+strings.Repeat("nl", size)+"dR"+strings.Repeat("nl", size/2+1)+"Fnlnl"))
+		}
 	}
 }
